@@ -46,6 +46,10 @@ def parse_bad(out, tag):
     if i < 0:
         return None
     j = out.find("Model checking completed", i)
+    # the tuple ends where the next tagged tuple (drift, counters) starts
+    nx = re.search(r'<<\s*"[A-Z0-9]+-[A-Z]+"', out[i + len(tag) + 2:])
+    if nx and (j < 0 or i + len(tag) + 2 + nx.start() < j):
+        j = i + len(tag) + 2 + nx.start()
     txt = " ".join(out[i:j if j > 0 else len(out)].split())
     n = int(re.match(r'"%s", (\d+)' % tag, txt).group(1))
     bad = re.findall(r"<< ?(\d+), (\d+), \"(\w+)\", \{([^}]*)\} ?>>", txt)
